@@ -449,7 +449,8 @@ func (lmd *Daemon) initializePeers(ctx context.Context) {
 	}
 
 	// Get rid of obsolete peers (removed from config)
-	lmd.PeerMapLock.Lock()
+	obsolete := make([]*Peer, 0)
+	lmd.PeerMapLock.RLock()
 	for peerKey, peer := range lmd.PeerMap {
 		found := false // id exists
 		for i := range lmd.Config.Connections {
@@ -458,12 +459,19 @@ func (lmd *Daemon) initializePeers(ctx context.Context) {
 			}
 		}
 		if !found {
-			peer.Stop()
-			peer.data.Store(nil)
-			lmd.PeerMapRemove(peerKey)
+			obsolete = append(obsolete, peer)
 		}
 	}
-	lmd.PeerMapLock.Unlock()
+	lmd.PeerMapLock.RUnlock()
+	for _, peer := range obsolete {
+		// Stop() blocks until the update loop is back from its current backend request (up to NetTimeout),
+		// clients must not wait for the peer map that long: stop without the lock, like for changed peers below
+		peer.Stop()
+		peer.data.Store(nil)
+		lmd.PeerMapLock.Lock()
+		lmd.PeerMapRemove(peer.ID)
+		lmd.PeerMapLock.Unlock()
+	}
 
 	// Create/set Peer objects
 	PeerMapNew := make(map[string]*Peer)
